@@ -151,12 +151,12 @@ prop("C34",
      units=["f4"],
      level="proof",
      claim="next_state follows exactly A1 -> $A$1 -> A$1 -> $A1 -> A1 and has period four (four_cycles composes the real function four times); "
-           "cycle_endpoint and cycle_token_text (whole functions, any character slice): the output equals the input once '$' markers are removed and letters "
+           "cycle_endpoint, cycle_token_text and the public cycle_reference (whole functions, any text): the output equals the input once '$' markers are removed and letters "
            "upper-cased (norm(out) == norm(in)) — whitespace, quoted or unquoted sheet prefix and every endpoint included — and no index is out of range; "
            "the absolute/relative decision for row-only / column-only / complete endpoints",
      assumptions=["char::is_ascii_alphabetic / is_ascii_digit as documented; slice::to_vec copies; the two iterator-adapter expressions (upper-casing extend, position of '!') "
                   "are read as shims with their documented meaning; a [char] slice holds fewer than usize::MAX - 8 elements"],
-     residual="cycle_reference (token spans come from the formula lexer), period four of the whole text (needs re-parsing the output), 'refers to the same cells' beyond the norm equality")
+     residual="the formula lexer's token spans (assumed: inside the text and ordered), the returned cursor positions, period four of the whole text (needs re-parsing the output), 'refers to the same cells' beyond the norm equality")
 
 
 prop("C23",
